@@ -163,3 +163,206 @@ Proof.
   pose proof (batch_repaired_reports d c s l Hc Hin Hl) as H.
   destruct (parse_batch d c s) as [rows err]. cbn in H. subst err. reflexivity.
 Qed.
+
+(* ------------------------------------------------------------------------------------------------ *)
+(* accepted means written: what the repaired parser accepts as a field value is what the text denotes *)
+
+Lemma split_unesc_sound : forall ch s par a b, split_unesc ch par s = Some (a, b) -> s = a ++ ch :: b.
+Proof.
+  intros ch. induction s as [|c r IH]; intros par a b H; [discriminate|].
+  cbn [split_unesc] in H. destruct ((c =? ch)%N && negb par) eqn:E.
+  - inversion H; subst. apply andb_true_iff in E. destruct E as [E _]. apply N.eqb_eq in E. subst. reflexivity.
+  - destruct (split_unesc ch (if (c =? c_bs)%N then negb par else false) r) as [[x y]|] eqn:S; [|discriminate].
+    inversion H; subst. cbn. f_equal. eapply IH; eauto.
+Qed.
+
+Lemma split_unq_sound : forall ch s inq par a b, split_unq ch inq par s = Some (a, b) -> s = a ++ ch :: b.
+Proof.
+  intros ch. induction s as [|c r IH]; intros inq par a b H; [discriminate|].
+  cbn [split_unq] in H. destruct ((c =? ch)%N && negb par && negb inq) eqn:E.
+  - inversion H; subst. apply andb_true_iff in E. destruct E as [E _]. apply andb_true_iff in E. destruct E as [E _].
+    apply N.eqb_eq in E. subst. reflexivity.
+  - match type of H with match ?X with _ => _ end = _ => destruct X as [[x y]|] eqn:S; [|discriminate] end.
+    inversion H; subst. cbn. f_equal. eapply IH; eauto.
+Qed.
+
+Lemma rev_cons_eq : forall (A : Type) (s : list A) l r, rev s = l :: r -> s = rev r ++ [l].
+Proof. intros A s l r H. rewrite <- (rev_involutive s), H. reflexivity. Qed.
+
+(* the value a field text denotes (line-protocol reference; [d] is the decimal -> binary64 conversion) *)
+Inductive denotes (d : bytes -> f64) : bytes -> fval -> Prop :=
+| den_int : forall t n, parse_int64 t = Ok n -> denotes d (t ++ [105%N]) (VInt n n)
+| den_float : forall t, valid_number t = true -> f64_is_finite (d t) = true -> denotes d t (VFloat t (d t))
+| den_float_f : forall t, valid_number t = true -> f64_is_finite (d t) = true -> denotes d (t ++ [102%N]) (VFloat t (d t))
+| den_true : forall t, is_true_text t = true -> denotes d t (VBool true)
+| den_false : forall t, is_false_text t = true -> denotes d t (VBool false)
+| den_str : forall body, denotes d (c_quote :: body ++ [c_quote]) (VStr (unesc_str 0 body)).
+
+Lemma parse_num_field_repaired_sound : forall d v x,
+  parse_num_field d cfg_repaired v = Ok x -> denotes d v x.
+Proof.
+  intros d v x H. unfold parse_num_field in H.
+  destruct (rev v) as [|l rinit] eqn:R; [discriminate|].
+  apply rev_cons_eq in R. subst v.
+  destruct (l =? 105)%N eqn:Ei.
+  - apply N.eqb_eq in Ei. subst l.
+    destruct (parse_int64 (rev rinit)) as [n|] eqn:P; [|discriminate].
+    cbn in H. inversion H; subst. apply den_int. exact P.
+  - destruct (l =? 117)%N eqn:Eu; [discriminate|].
+    destruct ((l =? 102)%N && negb match rev rinit with [] => true | _ :: _ => false end) eqn:Ef.
+    + apply andb_true_iff in Ef. destruct Ef as [Ef _]. apply N.eqb_eq in Ef. subst l.
+      destruct (valid_number (rev rinit)) eqn:V.
+      * unfold float_of_valid in H. cbn [cfg_repaired c_plus c_negdot c_fsuffix andb] in H.
+        cbn [fval_finite] in H. rewrite orb_false_r in H.
+        destruct (f64_is_finite (d (rev rinit))) eqn:F; [|discriminate].
+        inversion H; subst. apply den_float_f; assumption.
+      * cbn in H. discriminate.
+    + destruct (is_true_text (rev rinit ++ [l])) eqn:T.
+      * inversion H; subst. apply den_true. exact T.
+      * destruct (is_false_text (rev rinit ++ [l])) eqn:Fa.
+        -- inversion H; subst. apply den_false. exact Fa.
+        -- destruct (valid_number (rev rinit ++ [l])) eqn:V; [|discriminate].
+           unfold float_of_valid in H. cbn [cfg_repaired c_plus c_negdot andb] in H. cbn [fval_finite] in H.
+           destruct (f64_is_finite (d (rev rinit ++ [l]))) eqn:F; [|discriminate].
+           inversion H; subst. apply den_float; assumption.
+Qed.
+
+Lemma parse_str_field_repaired_sound : forall d v x,
+  parse_str_field cfg_repaired v = Ok x -> denotes d v x.
+Proof.
+  intros d v x H. unfold parse_str_field in H.
+  destruct v as [|h t]; [discriminate|].
+  destruct (h =? c_quote)%N eqn:Q.
+  - apply N.eqb_eq in Q. subst h.
+    destruct (rev t) as [|l rbody] eqn:R; [discriminate|].
+    apply rev_cons_eq in R. subst t.
+    destruct (l =? c_quote)%N eqn:Q2; [|discriminate].
+    apply N.eqb_eq in Q2. subst l. inversion H; subst. apply den_str.
+  - cbn in H. discriminate.
+Qed.
+
+Lemma parse_value_repaired_sound : forall d v x,
+  parse_value d cfg_repaired v = Ok x -> denotes d v x.
+Proof.
+  intros d v x H. unfold parse_value in H. destruct (has_unesc_quote v).
+  - eapply parse_str_field_repaired_sound; eauto.
+  - eapply parse_num_field_repaired_sound; eauto.
+Qed.
+
+Lemma parse_field_repaired_sound : forall d seg k x,
+  parse_field d cfg_repaired seg = Ok (k, x) ->
+  exists kraw vtxt, seg = kraw ++ c_eq :: vtxt /\ k = unescape_tag kraw /\ k <> [] /\ denotes d vtxt x.
+Proof.
+  intros d seg k x H. unfold parse_field in H.
+  destruct (split_unesc c_eq false seg) as [[kraw v]|] eqn:S; [|discriminate].
+  apply split_unesc_sound in S.
+  destruct (unescape_tag kraw) as [|k0 kr] eqn:K; [discriminate|].
+  destruct (Nat.ltb max_key_len (List.length (k0 :: kr))); [discriminate|].
+  destruct (parse_value d cfg_repaired v) as [y|] eqn:P; [|discriminate].
+  cbn in H. inversion H; subst. exists kraw, v. repeat split; auto. discriminate.
+  eapply parse_value_repaired_sound; eauto.
+Qed.
+
+Lemma map_result_ok : forall (A B : Type) (f : A -> result B) l bs,
+  map_result f l = Ok bs -> Forall2 (fun a b => f a = Ok b) l bs.
+Proof.
+  intros A B f. induction l as [|a r IH]; intros bs H.
+  - inversion H. constructor.
+  - cbn in H. destruct (f a) as [b|] eqn:F; [|discriminate]. cbn in H.
+    destruct (map_result f r) as [bs'|] eqn:M; [|discriminate]. cbn in H. inversion H; subst.
+    constructor; auto.
+Qed.
+
+Lemma map_result_err : forall (A B : Type) (f : A -> result B) l a,
+  In a l -> f a = Err -> map_result f l = Err.
+Proof.
+  intros A B f. induction l as [|x r IH]; intros a Hin Hf; [destruct Hin|].
+  cbn. destruct Hin as [->|Hin].
+  - rewrite Hf. reflexivity.
+  - destruct (f x); [|reflexivity]. cbn. rewrite (IH a Hin Hf). reflexivity.
+Qed.
+
+(* the pieces of a line as the parser cuts it *)
+Definition line_field_text (s : bytes) : option bytes :=
+  match split_unesc c_sp false (drop_while is_lead_ws s) with
+  | None => None
+  | Some (_, rest0) =>
+      let rest := drop_while is_sp rest0 in
+      match split_unq c_sp false false rest with
+      | None => Some rest
+      | Some (fstr, _) => Some fstr
+      end
+  end.
+Definition line_field_segments (s : bytes) : list bytes :=
+  match line_field_text s with Some f => split_all_unq (List.length f) c_comma f | None => [] end.
+
+Lemma parse_line_fields : forall d c s r,
+  parse_line d c s = Ok r ->
+  Forall2 (fun seg kv => parse_field d c seg = Ok kv) (line_field_segments s) (r_fields r).
+Proof.
+  intros d c s r H. unfold parse_line in H. unfold line_field_segments, line_field_text.
+  destruct (split_unesc c_sp false (drop_while is_lead_ws s)) as [[mt rest0]|]; [|discriminate].
+  match type of H with bind ?X _ = _ => destruct X as [mt'|]; [|discriminate] end. cbn [bind] in H.
+  destruct (Nat.ltb max_name_len (List.length (unescape_tag (fst mt')))); [discriminate|].
+  destruct (split_unq c_sp false false (drop_while is_sp rest0)) as [[fstr tsr]|].
+  - destruct (parse_fields d c fstr) as [fs|] eqn:PF; [|discriminate]. cbn [bind] in H.
+    destruct (parse_ts (drop_while is_sp tsr)) as [ts|]; [|discriminate]. cbn [bind] in H.
+    inversion H; subst. cbn [r_fields]. apply map_result_ok. exact PF.
+  - destruct (parse_fields d c (drop_while is_sp rest0)) as [fs|] eqn:PF; [|discriminate]. cbn [bind] in H.
+    inversion H; subst. cbn [r_fields]. apply map_result_ok. exact PF.
+Qed.
+
+(* accepted_means_written *)
+Lemma accepted_means_written : forall d s r,
+  parse_line d cfg_repaired s = Ok r ->
+  Forall2 (fun seg kv => exists kraw vtxt, seg = kraw ++ c_eq :: vtxt /\ fst kv = unescape_tag kraw /\ denotes d vtxt (snd kv))
+          (line_field_segments s) (r_fields r).
+Proof.
+  intros d s r H. apply parse_line_fields in H.
+  induction H as [|seg kv segs kvs Hh Ht IH]; constructor; auto.
+  destruct kv as [k x]. apply parse_field_repaired_sound in Hh.
+  destruct Hh as [kraw [vtxt [H1 [H2 [_ H3]]]]]. exists kraw, vtxt. auto.
+Qed.
+
+(* malformed classes *)
+Lemma no_field_section_rejected : forall d c s,
+  split_unesc c_sp false (drop_while is_lead_ws s) = None -> parse_line d c s = Err.
+Proof. intros d c s H. unfold parse_line. rewrite H. reflexivity. Qed.
+
+Lemma bad_field_rejected : forall d c s seg,
+  In seg (line_field_segments s) -> parse_field d c seg = Err -> parse_line d c s = Err.
+Proof.
+  intros d c s seg Hin Hf. unfold line_field_segments, line_field_text in Hin. unfold parse_line.
+  destruct (split_unesc c_sp false (drop_while is_lead_ws s)) as [[mt rest0]|]; [|reflexivity].
+  match goal with |- bind ?X _ = _ => destruct X as [mt'|]; [|reflexivity] end. cbn [bind].
+  destruct (Nat.ltb max_name_len (List.length (unescape_tag (fst mt')))); [reflexivity|].
+  destruct (split_unq c_sp false false (drop_while is_sp rest0)) as [[fstr tsr]|].
+  - unfold parse_fields. rewrite (map_result_err _ _ _ _ _ Hin Hf). reflexivity.
+  - unfold parse_fields. rewrite (map_result_err _ _ _ _ _ Hin Hf). reflexivity.
+Qed.
+
+(* a value text without denotation makes its field, hence the line, fail: bad numbers, unterminated quotes *)
+Lemma undenoted_value_rejected : forall d kraw v,
+  (forall x, ~ denotes d v x) -> split_unesc c_eq false (kraw ++ c_eq :: v) = Some (kraw, v) ->
+  parse_field d cfg_repaired (kraw ++ c_eq :: v) = Err.
+Proof.
+  intros d kraw v Hno Hs.
+  destruct (parse_field d cfg_repaired (kraw ++ c_eq :: v)) as [[k x]|] eqn:P; [|reflexivity].
+  exfalso. unfold parse_field in P. rewrite Hs in P.
+  destruct (unescape_tag kraw) as [|k0 kr]; [discriminate|].
+  destruct (Nat.ltb max_key_len (List.length (k0 :: kr))); [discriminate|].
+  destruct (parse_value d cfg_repaired v) as [y|] eqn:PV; [|discriminate].
+  apply parse_value_repaired_sound in PV. exact (Hno y PV).
+Qed.
+
+Lemma bad_timestamp_rejected : forall d c s mt rest0 fstr tsr,
+  split_unesc c_sp false (drop_while is_lead_ws s) = Some (mt, rest0) ->
+  split_unq c_sp false false (drop_while is_sp rest0) = Some (fstr, tsr) ->
+  parse_ts (drop_while is_sp tsr) = Err ->
+  parse_line d c s = Err.
+Proof.
+  intros d c s mt rest0 fstr tsr H1 H2 H3. unfold parse_line. rewrite H1.
+  match goal with |- bind ?X _ = _ => destruct X as [mt'|]; [|reflexivity] end. cbn [bind].
+  destruct (Nat.ltb max_name_len (List.length (unescape_tag (fst mt')))); [reflexivity|].
+  rewrite H2. destruct (parse_fields d c fstr); [|reflexivity]. cbn [bind]. rewrite H3. reflexivity.
+Qed.
